@@ -68,6 +68,66 @@ def converter_paths_rule(ck, P):
                  "%s applies the recompressor conditionally (%s): tiles keep their source encoding on the other path while the reader advertises the target encoding" % (mname, why), ir.loc(m))
 
 
+def converter_entry_rule(ck, P, rule="E-COMP-PIPE"):
+    """convert_tiles_container hands the writer the CONVERTING reader: every write_to_filename in it gets the value built by
+    TilesConvertReader::new_from_reader(reader, cp) from the function's own parameters.  A shortcut that writes the source reader directly is
+    only a shortcut if its condition looks at every field of TilesConverterParameters (each one changes the output: selection, compression,
+    forced recompression, flip_y, swap_xy); a bypass whose condition leaves a field out is reported with the field."""
+    fb = [b for b in P.bodies if b["q"].endswith("container::converter::convert_tiles_container")]
+    adt = [q for q in P.adts if q.endswith("container::converter::TilesConverterParameters")]
+    if not ck.anchor(rule, "convert_tiles_container + TilesConverterParameters", fb + adt, 2):
+        return
+    b = fb[0]
+    fields = {f["name"] for v in P.adts[adt[0]]["variants"] for f in v["fields"]}
+    ck.anchor(rule, "TilesConverterParameters fields", sorted(fields), 5)
+    blk = ir.fn_block(b)
+    al = ir.Aliases(b)
+    pars = {x["name"]: al.canon(x["hid"]) for p_ in b["params"] for x in ir.pat_binds(p_)}
+    # async desugaring re-binds the parameters: canonical hids through `let x = x`
+    def root(n):
+        h = al.hid(ir.strip(n))
+        return h
+    conv = {}
+    for n in ir.walk_nodes(blk):
+        if n.get("k") == "let" and n["pat"].get("k") == "bind" and "init" in n:
+            c = [y for y in ir.walk_nodes(n["init"]) if y.get("k") == "call" and (y.get("q") or "").endswith("TilesConvertReader::new_from_reader")]
+            if c:
+                conv[n["pat"]["hid"]] = c[0]
+    writes = [(y, ps) for y, ps, _ in ir.walk(blk) if y.get("k") == "call" and (y.get("q") or "").endswith("getters::write_to_filename")]
+    ck.anchor(rule, "write_to_filename in convert_tiles_container", writes, 1)
+
+    def reads_of(expr, depth=0):
+        got = set()
+        for y in ir.walk_nodes(expr):
+            if y.get("k") == "field" and y.get("name") in fields and "TilesConverterParameters" in ((ir.strip(y["e"]).get("t") or "") + (ir.strip(y["e"]).get("ta") or "")):
+                got.add(y["name"])
+            if depth < 2 and y.get("k") in ("call", "mcall"):
+                cal = P.fn(y.get("q") or "")
+                if cal is not None and any("TilesConverterParameters" in t for t in cal.get("in_t", ())):
+                    got |= reads_of(cal["body"], depth + 1)
+        return got
+    for k, (w, ps) in enumerate(writes):
+        a0 = ir.strip(w["a"][0])
+        while a0.get("k") in ("ref", "deref"):
+            a0 = ir.strip(a0["e"])
+        h = ir.local_hid(a0)
+        key = "convert_tiles_container|write#%d" % (k + 1)
+        if h in conv:
+            c = conv[h]
+            okargs = len(c["a"]) == 2 and root(c["a"][0]) == pars.get("reader") and root(c["a"][1]) == pars.get("cp")
+            ck.check(okargs, rule, key, "the written reader is TilesConvertReader::new_from_reader(reader, cp) of the function's own arguments",
+                     "the converter is not built from the function's reader and parameters", ir.loc(w))
+            continue
+        guards = [p_ for p_ in ps if p_.get("k") == "if"]
+        seen = set()
+        for g in guards:
+            seen |= reads_of(g["c"])
+        missing = sorted(fields - seen)
+        ck.check(bool(guards) and not missing, rule, key, "a write that bypasses the converter is guarded by a condition over every conversion parameter",
+                 "convert_tiles_container writes a reader that is not the converter%s: tiles are written without %s being applied" %
+                 (" under a condition that ignores %s" % missing if guards else " unconditionally", "/".join(missing) if missing else "the conversion"), ir.loc(w))
+
+
 def override_order_rule(ck, P):
     """E-COMP-PIPE|override-before-wrap: --override-input-compression corrects what a READER reports about its stored bytes.  The converting
     wrapper copies the reported compression when it is built (its own parameters and its recompressor start from it) and its
@@ -97,6 +157,7 @@ def override_order_rule(ck, P):
 
 def rules(ck, P):
     converter_paths_rule(ck, P)
+    converter_entry_rule(ck, P)
     override_order_rule(ck, P)
     # the pmtiles target keeps its (compressed) metadata and root directory apart: see wire.pm_layout_rules
     from . import wire
